@@ -13,6 +13,8 @@ RULE = ("state graph: roots = fresh stream (counter 1) and streams with both cou
         "key/nonce evolution, every chunk equal to the reference construction, rejected pull leaves state bit-identical, mlen 0, "
         "tag 0xff, output untouched. Length sweep: mlen 0..300 x adlen 0..40 x tags.")
 
+RULE = RULE + ' Tag bytes: every tag byte 0..255 as first chunk x 10 second tag bytes x a plain third chunk, from a fresh state and from counter 2^32-2: pusher against the model after every push (rekey iff bit TAG_REKEY or counter wrap), puller recovers all three and ends synchronised.'
+
 META = {
     "engine": "E-graph", "level": "model_checking",
     "technique": "explicit-state exhaustive exploration of all push/pull/rekey/tamper operation sequences to a depth bound on the real code, against an ideal-stream model and a reference chunk construction",
